@@ -38,8 +38,11 @@ pub open spec fn events_extend(old_evs: Seq<Event>, new_evs: Seq<Event>) -> bool
 
 impl<'t> Parser<'t> {
     // representation invariant of the parser between any two public operations
+    // (opaque: the grammar functions only pass it along; the core operations reveal it)
+    #[verifier::opaque]
     pub open spec fn wf(&self) -> bool {
         &&& self.input.wf()
+        &&& self.input.tokens@.len() <= 0x7fff_fff0   // inputs with >= 2^31 tokens are not covered (TextSize is u32 anyway)
         &&& self.fuel <= 256
         &&& events_wf(self.events@)
         &&& count_adv(self.events@, self.events@.len() as int) >= nontrivia(self.input.tokens@, self.input.cursor as int)
@@ -73,6 +76,7 @@ pub proof fn lemma_nontrivia_step(ts: Seq<Token>, c: int)
 
 // ---- termination measure (C04: the parser never hangs) ----
 // at_eof: only trivia is left.  Once true it stays true; every peek then answers Eof.
+#[verifier::opaque]
 pub open spec fn at_eof(p: Parser) -> bool {
     skip_trivia(p.input.tokens@, p.input.cursor as int) == p.input.tokens@.len()
 }
@@ -81,11 +85,18 @@ pub open spec fn nt_left(p: Parser) -> int {
 }
 // mu never increases; it strictly decreases whenever a non-trivia token is consumed and whenever a look-ahead is
 // answered from the input (fuel > 0) before the end of input.  257 > the largest fuel value + 1.
+// (nt_left is >= 1 whenever !at_eof, lemma_nontrivia_suffix; the clamp makes `mu >= 0` hold by definition, which is what
+//  Verus' integer `decreases` needs at every loop end and recursive call)
+pub open spec fn nt_left1(p: Parser) -> int { if nt_left(p) >= 1 { nt_left(p) } else { 1 } }
+#[verifier::opaque]
 pub open spec fn mu(p: Parser) -> int {
-    if at_eof(p) { 0 } else { nt_left(p) * 257 + p.fuel as int + 1 }
+    if at_eof(p) { 0 } else { nt_left1(p) * 257 + p.fuel as int + 1 }
 }
 // a stalled parser: look-ahead budget exhausted although input remains (every peek answers Eof)
 pub open spec fn stalled(p: Parser) -> bool { p.fuel == 0 && !at_eof(p) }
+
+// once stalled, a parser stays stalled until it makes progress
+pub open spec fn stay(o: Parser, n: Parser) -> bool { stalled(o) ==> (mu(n) < mu(o) || stalled(n)) }
 
 pub proof fn lemma_nontrivia_suffix(ts: Seq<Token>, c: int)
     requires 0 <= c <= ts.len(),
@@ -118,6 +129,7 @@ pub proof fn lemma_mu_skip(p: Parser, q: Parser)
     ensures at_eof(q) == at_eof(p), nt_left(q) == nt_left(p),
         q.fuel == p.fuel ==> mu(q) == mu(p), q.fuel < p.fuel ==> mu(q) <= mu(p), (q.fuel < p.fuel && !at_eof(p)) ==> mu(q) < mu(p),
 {
+    reveal(at_eof); reveal(mu);
     lemma_skip_trivia_bounds(p.input.tokens@, p.input.cursor as int);
 }
 pub proof fn lemma_mu_advance(p: Parser, q: Parser)
@@ -126,6 +138,7 @@ pub proof fn lemma_mu_advance(p: Parser, q: Parser)
            q.input.cursor == if c < p.input.tokens@.len() { c + 1 } else { c } }),
     ensures mu(q) <= mu(p), !at_eof(p) ==> mu(q) < mu(p), at_eof(p) ==> at_eof(q),
 {
+    reveal(at_eof); reveal(mu);
     let ts = p.input.tokens@;
     lemma_skip_trivia_bounds(ts, p.input.cursor as int);
     let c = skip_trivia(ts, p.input.cursor as int);
